@@ -593,15 +593,14 @@ Proof.
   destruct (span_ws X) as [ws2 [|ov r2]]; [rewrite E; reflexivity|]. rewrite Hov, E. reflexivity.
 Qed.
 
-(* the early exit: a list with CREATE and TABLE and no upper-case AS keeps its names ungrouped;
-   the AS test is case-sensitive: `as` does not count (known defect, C11) *)
+(* the early exit: a list with CREATE and TABLE and no AS keeps its names ungrouped; AS in any letter
+   case counts (the test was case-sensitive until the fix of finding C11-as-case) *)
 Example functions_early_exit_ex :
   let l := [Leaf T_DDL s_CREATE; c_ws; c_kw s_TABLE; c_ws; c_name 102; c_paren [c_name 97]] in
+  let g := [Leaf T_DDL s_CREATE; c_ws; c_kw s_TABLE; c_ws; mk_grp CFunction [c_name 102; c_paren [c_name 97]]] in
   f_functions CStatement l = Ok l /\
-  f_functions CStatement (l ++ [c_ws; c_kw s_AS])
-    = Ok ([Leaf T_DDL s_CREATE; c_ws; c_kw s_TABLE; c_ws; mk_grp CFunction [c_name 102; c_paren [c_name 97]];
-           c_ws; c_kw s_AS]) /\
-  f_functions CStatement (l ++ [c_ws; c_kw [97; 115]%N]) = Ok (l ++ [c_ws; c_kw [97; 115]%N]).
+  f_functions CStatement (l ++ [c_ws; c_kw s_AS]) = Ok (g ++ [c_ws; c_kw s_AS]) /\
+  f_functions CStatement (l ++ [c_ws; c_kw [97; 115]%N]) = Ok (g ++ [c_ws; c_kw [97; 115]%N]).
 Proof. repeat split; vm_compute; reflexivity. Qed.
 
 (* ================================================================================================
